@@ -121,6 +121,23 @@ Definition b_mode_right (pr : list string) (t : string) (r : res val) : bool :=
   | None => true
   end.
 
+Fixpoint tree_documented (krules : list krule) (t : tree) {struct t} : bool :=
+  match t with
+  | Leaf _ => true
+  | Node k outs cs =>
+      existsb (fun r => String.eqb (fst r) k && strs_same (fst (snd r)) outs
+                        && Nat.eqb (List.length cs) (List.length (snd (snd r)))
+                        && forallb (fun i => existsb (fun c => mem (root_names c) i) cs) (snd (snd r))) krules
+      && forallb (tree_documented krules) cs
+  end.
+
+Definition b_documented (pr : list string) (o t : string) (sc : bool) (r : res val) : bool :=
+  match tree_of r, spec_mode pr o t with
+  | Some tr, Some m => tree_documented (spec_krules sc m o) tr
+  | Some _, None => false
+  | None, _ => true
+  end.
+
 Definition b_reported (rl : res val * log) (rep : res val) : bool :=
   match rep with
   | Ok g => match snd rl with [g'] => val_same g' g | _ => false end
@@ -137,6 +154,7 @@ Definition check_with (cm rm mm : M val) (c : cfg) : bool :=
   let r := fst rl in
   b_total r && b_mode_selection pr (c_o c) (c_t c) (fst (interp pr mm []))
   && b_iff pr (c_o c) (c_t c) (c_sc c) r && b_precedence pr (c_t c) r && b_mode_right pr (c_t c) r
+  && b_documented pr (c_o c) (c_t c) (c_sc c) r
   && b_reported rl (fst (interp pr rm [])).
 Definition check (c : cfg) : bool :=
   check_with (convert_m (c_o c) (c_t c) (c_sc c)) (reported_m (c_o c) (c_t c) (c_sc c)) (mode_m (c_o c) (c_t c)) c.
